@@ -38,7 +38,63 @@ fn setup(ctx: &mut Ctx) {
     ctx.floor("notes:huge-sizes", 100);
     ctx.floor("walker-runs", 500);
     ctx.floor("huge-chain:cycle>65536", 4);
+    #[cfg(feature = "elf_std")]
+    ctx.floor("stream-files-returned", 2000);
 }
+
+/// Every stream query on a corpus input of at most 64 KiB must return (the statement says "within seconds"; the
+/// limit here is 30 s of wall clock on one thread). Step budgets cannot see a loop that only walks parsed headers.
+#[cfg(feature = "elf_std")]
+fn stream_returns(ctx: &mut Ctx) {
+    use std::sync::atomic::{AtomicBool, Ordering};
+    use std::sync::mpsc::RecvTimeoutError;
+    // one hang is a verdict; the stuck thread keeps a core busy, so the rest of this shard's stream cases are skipped
+    static HUNG: AtomicBool = AtomicBool::new(false);
+    if HUNG.load(Ordering::Relaxed) {
+        ctx.count("stream-cases-skipped-after-a-hang");
+        return;
+    }
+    let kind = ctx.rng.below(KINDS);
+    let input = gen_input(&mut ctx.rng, kind, false);
+    if input.bytes.len() > 65536 {
+        return;
+    }
+    ctx.set_input(&input.bytes);
+    ctx.sample(|| format!("{} ({} bytes) through the stream parser", input.what, input.bytes.len()));
+    let data = input.bytes.clone();
+    let (tx, rx) = std::sync::mpsc::channel::<u64>();
+    let h = std::thread::spawn(move || {
+        let mut n = 0u64;
+        if let Ok(mut s) = elf::ElfStream::<elf::endian::AnyEndian, _>::open_stream(std::io::Cursor::new(&data[..])) {
+            let (nsec, nseg) = (s.section_headers().len().min(48), s.segments().len().min(12));
+            let names = vec![".dynsym".to_string(), ".absent".to_string(), String::new()];
+            for q in crate::observe::full_query_set(nsec, nseg, &names, true) {
+                let _ = crate::observe::obs_stream(&mut s, &q, &mut crate::observe::NoMonitor);
+                n += 1;
+            }
+        }
+        let _ = tx.send(n);
+    });
+    match rx.recv_timeout(std::time::Duration::from_secs(WALL_LIMIT_S as u64)) {
+        Ok(n) => {
+            let _ = h.join();
+            ctx.evals(n.max(1));
+            ctx.count("stream-files-returned");
+            ctx.count_n("stream-queries-returned", n);
+        }
+        Err(RecvTimeoutError::Timeout) => {
+            HUNG.store(true, Ordering::Relaxed);
+            ctx.violation("stream:query-did-not-return", format!("the stream parser's queries over {} ({} bytes) did not return within {WALL_LIMIT_S} s", input.what, input.bytes.len()));
+        }
+        Err(RecvTimeoutError::Disconnected) => {
+            // the thread panicked: totality is C01/C08's business
+            ctx.count("stream-thread-panicked(not-judged)");
+        }
+    }
+}
+
+#[cfg(not(feature = "elf_std"))]
+fn stream_returns(_ctx: &mut Ctx) {}
 
 fn strata(t: Tier) -> Vec<Stratum> {
     vec![
@@ -49,6 +105,9 @@ fn strata(t: Tier) -> Vec<Stratum> {
         st("worst-case-64KiB", scale(t, 16, 160, 0)),
         // chains and cycles longer than 2^16 entries (megabyte-sized tables)
         st("huge-chains", scale(t, 16, 64, 0)),
+        // the stream parser's queries over the same corpus, each file on its own thread under a wall-clock limit:
+        // loops that do no integer reads (over already parsed headers) are invisible to the step counter
+        st("stream-queries-return", scale(t, 6_000, 60_000, 0)),
     ]
 }
 
@@ -335,6 +394,7 @@ fn run(ctx: &mut Ctx, si: usize, case: u64) {
                 items_bound(ctx, "ParsingTable<Symbol>::iter", k, l as u64, &raw);
             }
         }
+        6 => stream_returns(ctx),
         3 => {
             // the walker over the shared corpus: every query under its budget, every drained iterator bounded
             let kind = ctx.rng.below(KINDS);
